@@ -22,6 +22,7 @@ MANIFEST = dict(
           "channel), no non-context error; every history is linearizable w.r.t. the bounded FIFO queue in which a context error has no "
           "effect (forward simulation to the canonical automaton); enqd = deqd ++ contents (FIFO, exactly-once); a call returning a "
           "context error has returned every permit and written nothing; at quiescence enqFree = cap - count and deqFree = count. "
+          "A call answers a context error only if its context ended (Props/C07Rev.lean: the specification alone would also admit spurious context errors). "
           "Tied to /repo by sync-skeleton equalities regenerated on every run and by stress histories of the real queues (2-8 "
           "goroutines, random deadlines/cancellations, capacities 1,2,3,8,unbounded) accepted by an exhaustive linearizability search "
           "against the same specification, Len()/AsSlice() samplers, exactly-once and per-producer-order accounting, a fill/drain "
